@@ -29,9 +29,11 @@ package command
 
 //@ func (*command.Commander).chainLog
 //@   requires commander != nil && log != nil
+// (the commander is built by New, which gives it its batcher)
+//@   assumes commander.Batcher != nil
 //@   ensures ret != nil && ret.Log == old(deref(log)) && ret.ID != nil && commander.lastLog == ret
 //@   ensures enqueued == old(enqueued) + 1
-//@   modifies Commander.lastLog, ledger.ChainedLog.Hash, ghost enqueued, ghost queueTail
+//@   modifies Commander.lastLog, ledger.ChainedLog.Hash, pkg:batching, chan, ghost enqueued, ghost queueTail
 //@   property C05 C06
 //@ func (*command.Commander).nextTXID
 //@   requires commander != nil && commander.lastTXID != nil
@@ -57,11 +59,7 @@ package command
 // type invariant of the commander: the head of the chain has an id
 //@ def headOK(c) = c.lastLog != nil ==> c.lastLog.ID != nil
 
-//@ func (*batching.Batcher[T]).Append
-//@   update enqueued = enqueued + 1
-//@   update queueTail = queueTail + 1
-//@   modifies ghost enqueued, ghost queueTail
-//@   trusted the batching layer: its contract with the store is C06's batcher/job obligations
+// (*batching.Batcher[T]).Append: see internal/engine/utils/batching/contracts_verif.go (ghost updates enqueued / queueTail)
 
 // ---- the commands
 // what exec needs from the function that turns the new transaction into a log: a fresh log without key
